@@ -18,9 +18,9 @@ CHECKS = {
         ],
     },
     "C02": {
-        "explanation": "bounded exploration by the symbolic executor of replication/failover histories over three real commit logs: (a) a step harness whose glue mirrors partition.go/replicator.go with calls to real log functions only, (b) a phase-structured three-term failover harness in which every (re)joining follower runs the real partition.truncateUncommitted against the real partition.handleLeaderOffsetRequest",
+        "explanation": "bounded exploration by the symbolic executor of replication/failover histories over three real commit logs: (c) the real replication data path end to end (leader messageProcessingLoop + commitLoop, real replicators, real follower sendReplicationRequest/handleReplicationResponse, ISR changes proposed by the real replicator) with NATS request/reply as direct calls; (a) a step harness whose glue mirrors partition.go/replicator.go with calls to real log functions only, (b) a phase-structured three-term failover harness in which every (re)joining follower runs the real partition.truncateUncommitted against the real partition.handleLeaderOffsetRequest",
         "assumptions": ["NATS transport (loss, delay, reordering, timeouts), hashicorp/raft, wall-clock lag detection are outside; request/reply is synchronous",
-                        "the fetch/commit/ISR glue is mirrored in the harness (hand transcription of replicator.start/replicate/tick, handleReplicationResponse, commitLoop): a regression in that glue itself is not seen by this check, regressions in the log, the epoch cache, NewLeaderEpoch, LastOffsetForLeaderEpoch, Truncate, handleLeaderOffsetRequest and truncateUncommitted are",
+                        "in harness (a) the fetch/commit/ISR glue is mirrored (hand transcription of replicator.start/replicate/tick, handleReplicationResponse, commitLoop): a regression in that glue itself is not seen by harness (a) but by the pipeline harness (c), which runs the real glue within one leader epoch; regressions in the log, the epoch cache, NewLeaderEpoch, LastOffsetForLeaderEpoch, Truncate, handleLeaderOffsetRequest and truncateUncommitted are",
                         "a crashed leader loses its in-memory replica offsets; a leader that steps down without crashing and leads again later is outside",
                         "3 replicas, message values are 1 symbolic byte, epochs concrete increasing"],
         "groups": [
@@ -32,6 +32,11 @@ CHECKS = {
              ]},
             {"pkg": "./server", "overlay": "server", "pkgname": "server",
              "harnesses": [
+                 {"name": "VerifC02Pipeline", "replay": "interpreted", "max-paths": 3000000, "quick": {"steps": 5}, "thorough": {"steps": 7},
+                  "covers": ["done", "publish", "fetch-b", "fetch-c", "shrink", "expand-by-replicator", "small-batches"],
+                  "targets": ["replicator).start", "replicator).replicate", "replicator).caughtUp", "replicator).maybeExpandISR", "protocolWriter).Flush",
+                              "partition).sendReplicationRequest", "partition).handleReplicationRequest", "partition).handleReplicationResponse",
+                              "partition).commitLoop", "partition).updateISRLatestOffset", "partition).messageProcessingLoop"]},
                  {"name": "VerifC02Failovers", "replay": "interpreted", "max-paths": 3000000, "quick": {"m1": 2, "m2": 1, "m3": 1}, "thorough": {"m1": 2, "m2": 2, "m3": 2},
                   "covers": ["done", "second-term", "third-term"],
                   "targets": ["partition).truncateUncommitted", "partition).handleLeaderOffsetRequest", "partition).sendLeaderOffsetRequest", "commitLog).NewLeaderEpoch"]},
